@@ -29,12 +29,13 @@ type Env struct {
 	shapes map[SymID][]int // restriction of shapes for a pointer-to-struct symbol; absent = any
 	tgt    map[SymID]ObjID
 	sumSym map[SymID]bool // symbol stands for several values; facts may only be weakened
+	marks  map[string]bool // path marks set by observers; joined by intersection ("on every path")
 	dead   bool
 }
 
 func newEnv() *Env {
 	return &Env{vals: map[ssa.Value]AV{}, cells: map[cellKey]AV{}, objs: map[ObjID]*objInfo{}, nilOf: map[SymID]nilness{},
-		shapes: map[SymID][]int{}, tgt: map[SymID]ObjID{}, sumSym: map[SymID]bool{}}
+		shapes: map[SymID][]int{}, tgt: map[SymID]ObjID{}, sumSym: map[SymID]bool{}, marks: map[string]bool{}}
 }
 
 func (e *Env) clone() *Env {
@@ -61,6 +62,10 @@ func (e *Env) clone() *Env {
 	}
 	for k, v := range e.sumSym {
 		n.sumSym[k] = v
+	}
+	n.marks = make(map[string]bool, len(e.marks))
+	for k, v := range e.marks {
+		n.marks[k] = v
 	}
 	return n
 }
@@ -196,6 +201,14 @@ func (e *Env) key(live []ssa.Value) string {
 	sort.Ints(ss)
 	for _, s := range ss {
 		fmt.Fprintf(&b, "S%d=%v;", s, e.shapes[SymID(s)])
+	}
+	var mk []string
+	for m := range e.marks {
+		mk = append(mk, m)
+	}
+	sort.Strings(mk)
+	for _, m := range mk {
+		b.WriteString("M:" + m + ";")
 	}
 	var ts []int
 	for s := range e.tgt {
@@ -395,6 +408,11 @@ func (eng *Engine) joinEnvs(a, b *Env, site string, live []ssa.Value) *Env {
 			if _, inA := a.nilOf[s]; !inA {
 				out.tgt[s] = tb
 			}
+		}
+	}
+	for m := range a.marks {
+		if b.marks[m] {
+			out.marks[m] = true
 		}
 	}
 	for s := range a.sumSym {
